@@ -271,7 +271,11 @@ func (c *smtCtx) structSort(t types.Type) *structInfo {
 	c.structs[name] = si
 	for i := 0; i < st.NumFields(); i++ {
 		f := st.Field(i)
-		si.Fields = append(si.Fields, structField{Name: f.Name(), Sort: c.sortOf(f.Type()), T: f.Type()})
+		fname := f.Name()
+		if fname == "_" {
+			fname = fmt.Sprintf("_%d", i)
+		}
+		si.Fields = append(si.Fields, structField{Name: fname, Sort: c.sortOf(f.Type()), T: f.Type()})
 	}
 	c.structL = append(c.structL, si) // appended after its dependencies (sortOf recursion above)
 	return si
@@ -653,10 +657,10 @@ func injectivityAxioms(text string, ifaceSorts []string) string {
 		if len(args) != 3 {
 			continue
 		}
-		fmt.Fprintf(&sb, "(assert (and (= (eref_arr %s) %s) (= (eref_idx %s) %s) (not (= %s nilref))))\n", a, args[1], a, args[2], a)
+		fmt.Fprintf(&sb, "(assert (and (= (eref_arr %s) %s) (= (eref_idx %s) %s) (not (= %s nilref)) (= (allocT %s) (allocT %s))))\n", a, args[1], a, args[2], a, a, args[1])
 	}
 	if nonGround {
-		sb.WriteString("(assert (forall ((qv!a Ref) (qv!i Int)) (! (and (= (eref_arr (eref qv!a qv!i)) qv!a) (= (eref_idx (eref qv!a qv!i)) qv!i) (not (= (eref qv!a qv!i) nilref))) :pattern ((eref qv!a qv!i)))))\n")
+		sb.WriteString("(assert (forall ((qv!a Ref) (qv!i Int)) (! (and (= (eref_arr (eref qv!a qv!i)) qv!a) (= (eref_idx (eref qv!a qv!i)) qv!i) (not (= (eref qv!a qv!i) nilref)) (= (allocT (eref qv!a qv!i)) (allocT qv!a))) :pattern ((eref qv!a qv!i)))))\n")
 	}
 	for _, s := range ifaceSorts {
 		mk, pay := q("mki:"+s), q("pay:"+s)
